@@ -20,6 +20,21 @@ CLAIMED = {
          "TLC checks the Verify truthfulness clauses (usable_sound, usable_complete, counts_total, recovery_count, possible_iff_capacity, clean_implies_intact) on every Verify transition of the bounded Par2Archive instances and on every replay of those transitions through the real par2.Verify (TLC recomputes Survivors/Occurring from the logged bytes), plus on seeded large sets; the small alphabet {0,1,2} makes TLC reach the 'all slices findable but files wrong' patterns by itself.",
          "Checksums idealised as injective; known finding D5 (clean although files differ when all slices findable) is reported as KNOWN-FINDING, any other violation of clean_implies_intact has its own clause.",
          "DESIGN.md section 5 C03"),
+ "C02": ("model_checking",
+         "Par2Archive.tla / Par1Archive.tla write-discipline action properties checked by TLC on every transition; every Verify/Repair transition replayed on a real directory with bystander files, whole-tree snapshots + hooked write-call log; TLC trace specs judge each execution",
+         "TLC checks C02_WriteDiscipline / C02_VolumesUntouched / C02_ListedMeansWritten as action properties on every transition of the bounded PAR2 and PAR1 directory state machines (all damage states including beyond capacity, all volume subsets, double-check on and off); each Verify/Repair transition is then executed by the real code on a real directory containing unrelated files and a sub-directory, with a recursive snapshot (bytes, inode, mtime, mode) before and after and the write calls logged through the build-tagged file-system hook; TLC judges every execution (and every Create of the seeded large sets) with the clauses write_discipline, listed_means_written, nothing_else_changed, verify_modifies_nothing, create_touches_only_archive.",
+         "Snapshot granularity (a same-bytes rewrite within one timestamp tick is only seen on the hooked half of the runs); damaged/foreign recovery files are exercised under C13/C19.",
+         "DESIGN.md section 5 C02"),
+ "C04": ("model_checking",
+         "Par1Archive.tla (GF(2^8)/0x11D, files as shards): TLC exhausts bounded instances; every Verify/Repair transition replayed on real par1.Create/Verify/Repair; seeded sets up to 40 files / 99 volumes incl. a constructed singular case whose determinant TLC recomputes",
+         "TLC model-checks the PAR1 directory state machine on bounded instances (every damage state x every subset of volumes; empty files next to non-empty ones; duplicate contents) proving counts = truth, untouched => clean with full parity check, within capacity => restored or justified singular; every Verify/Repair transition is replayed on archives written by the real par1.Create and judged by TLC (Trace_Par1); seeded larger sets (Unicode names with surrogate pairs, sizes around 16 KiB and up to 70 KiB, up to 99 volumes, loss patterns none/at capacity/over capacity/all volumes) are judged the same way, 'singular' being accepted only when TLC's determinant over GF(2^8) is zero.",
+         "MD5 idealised as injective; bounded/sampled scope; klauspost/reedsolomon is part of the implementation under test, not of the oracle.",
+         "DESIGN.md section 5 C04"),
+ "C14": ("model_checking",
+         "TLC explores the damage/restore/volume/Verify/Repair graph of Par2Archive and Par1Archive to closure (action properties C14_*); every Verify/Repair edge of the closed graph replayed on the real code with follow-up Verify + hooked second Repair",
+         "The reachable graph of the bounded PAR2 and PAR1 directory state machines is explored to closure by TLC (every history over damage, restore, delete/restore volume, Verify, Repair, Repair with double-check ends in one of its states) with the action properties success_is_fixpoint, failure_keeps_or_restores, verify_pure; because no state survives between gopar calls except the directory, replaying every Verify/Repair edge from its materialised source state on the real code covers every finite history: each successful real Repair is followed by a real Verify (must be clean) and a second real Repair whose write calls are logged through the hook (must write nothing); failed repairs must leave every file as it was or restored.",
+         "Closed damage menu (bounded variants per file); PAR2 and PAR1; liveness (convergence as volumes arrive) follows from fixpoint + within-capacity clauses rather than being checked as a temporal formula.",
+         "DESIGN.md section 5 C14"),
 }
 
 NOT_YET = "check under construction in this round; not claimed until it runs green on the unchanged tree"
